@@ -110,13 +110,15 @@ pub fn run(a: &Args) {
 
     // (c) concurrent update callers
     let g_c = cases.group("conc_cases", "N * list (list (N * bool)) * N");
-    let n_conc = if a.thorough() { 400 } else { 60 };
+    let n_conc = if a.thorough() { 20000 } else { 2500 };
     let mut thr_hist = std::collections::BTreeMap::new();
-    for _ in 0..n_conc {
-        let threads = 2 + rng.below(if a.thorough() { 15 } else { 7 }) as usize;
+    for round in 0..n_conc {
+        // most rounds are tight races: few threads, one or two offers each, released together
+        let tight = round % 10 != 0;
+        let threads = if tight { 2 + rng.below(3) as usize } else { 2 + rng.below(if a.thorough() { 15 } else { 7 }) as usize };
         *thr_hist.entry(threads).or_insert(0u64) += 1;
-        let per = 1 + rng.below(40) as usize;
-        let range = 1 + rng.below(30);
+        let per = if tight { 1 + rng.below(2) as usize } else { 1 + rng.below(40) as usize };
+        let range = if tight { 2 + rng.below(6) } else { 1 + rng.below(30) };
         let start = rng.below(range.min(4));
         let cell = Arc::new(AtomicReloadId::with_value(reload_id_from(start as usize)));
         let barrier = Arc::new(Barrier::new(threads));
@@ -127,6 +129,10 @@ pub fn run(a: &Args) {
             let barrier = barrier.clone();
             handles.push(std::thread::spawn(move || {
                 barrier.wait();
+                // leave the barrier's wake-up skew behind
+                for _ in 0..50 {
+                    std::hint::spin_loop();
+                }
                 offers
                     .into_iter()
                     .map(|o| (o, cell.update(reload_id_from(o as usize))))
